@@ -209,5 +209,35 @@ check("C06",
       technique="complete enumeration of a finite configuration space on the implementation against expectations derived from the interface types",
       engine="zoo", design="3/C06")
 
+check("C02",
+      passes=[dict(name="C02", src=["harness/C02.cpp"], shared=ZOO, deps=ZOO_DEPS, variant="fast", shards={"quick": 12, "thorough": 12})],
+      rule="the complete product factory row (one per factory overload of form_factory, attr_factory, capture_spec_factory, "
+           "type_factory, name_factory, expr_factory, dir_factory, stmt_factory, Lexicon, Scope/Region/Udt declare_*, Enum, Class, Block, "
+           "Parameter_list, Mapping, Module) x 12 operand rotations x optional parts supplied / not supplied x 3 histories (fresh Lexicon; "
+           "after 1000 unrelated constructions; after the whole table was built once); each documented accessor (primitive and named "
+           "alias) must return exactly the argument given (identity for nodes, value for enumerators/qualifiers/positions/strings), "
+           "unsupplied optional parts read as absent or refuse with logic_error, settable links read back after being set. "
+           "distinct_nontrivial = distinct row variants built.",
+      text="Complete enumeration of the finite space row x operand choice x optional parts on the real factories; "
+           "expectations are written from the interface documentation.",
+      note="Every row gives pairwise-distinct operands to different positions. make_annotation and make_token are declared "
+           "but defined nowhere: their public classes are constructed directly. Declared normal forms (qualifier merging, natural "
+           "transfer collapsing) are stated per row.",
+      technique="complete enumeration of a finite configuration space (factory x operand choice x optional parts) on the implementation",
+      engine="zoo", design="3/C02")
+
+check("C09",
+      passes=[dict(name="C09", src=["harness/C09.cpp"], shared=ZOO, deps=ZOO_DEPS, variant="fast", shards={"quick": 12, "thorough": 16})],
+      rule="(1) every factory row x 12 operand rotations x type supplied / not supplied against the row's type rule: fixed "
+           "(void, bool, typename, class/union/enum/namespace, decltype(nullptr)), given, absent (logic_error), borrowed (same node as the "
+           "designated sub-node's type, or both refuse with logic_error); (2) EVERY addition sequence of length <= 5 (quick) / <= 7 "
+           "(thorough) over 3 element types for heterogeneous scopes (3 declaration kinds), parameter lists, expression lists, "
+           "enumerations, base lists: the Product obtained BEFORE the additions has exactly the current elements' types after each one.",
+      text="Complete enumeration of the factory table against per-row type rules, plus all addition sequences up to the "
+           "bound on the real growing containers.",
+      note="Exception equivalence: for borrowed types 'both sides refuse with logic_error' counts as agreement.",
+      technique="complete enumeration of a finite configuration space plus exhaustive enumeration of addition sequences up to a bound, on the implementation",
+      engine="zoo", design="3/C09")
+
 # Properties not claimed (with the reason that goes to MANIFEST.not_applicable).
 NOT_CLAIMED = {}
